@@ -86,6 +86,9 @@ struct Reg {
     gen: u16,
     at: Duration,
     ttl: u64,
+    /// an UNREGISTER for it failed on the client's side (stream error): the server may or may not have seen it, so the
+    /// registration may be listed but need not be
+    unregister_in_doubt: bool,
 }
 
 #[derive(Debug)]
@@ -107,6 +110,10 @@ fn run_rendezvous(stack: Stack) -> SimResult {
     crate::full::reset(false);
     draw_policy();
     net::with_net(|n| n.faults = false);
+    if profile() != Profile::None && choose(4) == 0 {
+        // some substreams die while their protocol is being negotiated; the connection stays up
+        net::with_net(|n| n.stream_reset_permille = [50, 200][choose(2)]);
+    }
     let min_ttl = 1 + choose(5) as u64;
     let max_ttl = 10 + choose(110) as u64;
     let max_peer = 1 + choose(3);
@@ -171,7 +178,18 @@ fn run_rendezvous(stack: Stack) -> SimResult {
                     // no response to wait for; the model forgets it once the request has been processed (below)
                     run_until_idle();
                     settle(Duration::from_millis(5));
-                    model.remove(&(me, ns));
+                    match outcome(&clients[c].shared, tag) {
+                        Some(Ok(_)) => {
+                            model.remove(&(me, ns));
+                        }
+                        _ => {
+                            // the request did not (provably) get through, e.g. its substream was reset during negotiation
+                            if let Some(r) = model.get_mut(&(me, ns)) {
+                                r.unregister_in_doubt = true;
+                            }
+                            probe("unregister-request-failed");
+                        }
+                    }
                     note("unregister");
                 }
                 5..=7 => {
@@ -225,7 +243,7 @@ fn run_rendezvous(stack: Stack) -> SimResult {
                     if status == 0 {
                         accepted += 1;
                         ensure!(in_range, "C51/ttl-out-of-range-accepted", "REGISTER with ttl {ttl:?} (effective {eff}s) accepted, allowed range is [{min_ttl},{max_ttl}]");
-                        model.insert((peer, ns.clone()), Reg { gen, at, ttl: eff });
+                        model.insert((peer, ns.clone()), Reg { gen, at, ttl: eff, unregister_in_doubt: false });
                         let mine = model.keys().filter(|(p, _)| *p == peer).count();
                         ensure!(mine <= max_peer, "C51/per-peer-limit", "after an accepted REGISTER {peer} holds {mine} registrations, max_registrations_per_peer is {max_peer}");
                         ensure!(model.len() <= max_total, "C51/total-limit", "after an accepted REGISTER the server holds {} registrations, max_registrations_total is {max_total}", model.len());
@@ -269,7 +287,7 @@ fn run_rendezvous(stack: Stack) -> SimResult {
                     // refreshed one until its *new* deadline
                     if cookie.is_none() && limit.is_none() {
                         for ((peer, mns), m) in &model {
-                            if ns.as_ref().map(|n| n == mns).unwrap_or(true) && m.at + Duration::from_secs(m.ttl) > now + Duration::from_secs(1) {
+                            if ns.as_ref().map(|n| n == mns).unwrap_or(true) && !m.unregister_in_doubt && m.at + Duration::from_secs(m.ttl) > now + Duration::from_secs(1) {
                                 ensure!(returned.contains(&m.gen), "C51/discover-missing", "DISCOVER {ns:?} at {now:?} does not list ({peer}, {mns}) generation {} registered at {:?} with ttl {}s", m.gen, m.at, m.ttl);
                             }
                         }
